@@ -202,6 +202,7 @@ Definition wf_node (h : head) (xs : list gtype) : bool :=
   | HArray n => (0 <=? n)%Z
   | HStruct fs => forallb wf_hdr fs
   | HAlias _ _ _ => match xs with [_] => true | _ => false end
+  | HSig _ => match xs with [T HTuple _; T HTuple _] => true | _ => false end   (* parameter and result tuples *)
   | _ => true
   end.
 Fixpoint wf (t : gtype) : bool := match t with T h xs => wf_node h xs && forallb wf xs end.
